@@ -334,6 +334,17 @@ func genGN(t *rapid.T, label string, kinds []string) core.GN {
 		prefix := map[string]string{"mail": "u@", "url": "http://", "dns": ""}[k]
 		return core.GN{Type: k, Name: prefix + strings.Repeat("a", n-len(prefix)-4) + ".org"}
 	}
+	if rapid.IntRange(0, 9).Draw(t, label+"-lookalike") == 0 {
+		// names that look like something else, or like more than a bare name: the configured kind and the configured bytes stand
+		switch k {
+		case "dns":
+			return core.GN{Type: k, Name: rapid.SampledFrom([]string{"10.0.0.1", "192.168.1.254", "0.0.0.0", "1.2.3", "mailto.example", "a@b.example", "http://x.example"}).Draw(t, label+"-dnslike")}
+		case "mail":
+			return core.GN{Type: k, Name: rapid.SampledFrom([]string{"Alice Example <alice@example.org>", "bob@example.org (Bob)", " carol@example.org ", "\"d.e\"@example.org", "<f@example.org>", "10.0.0.1", "mailto:g@example.org", "h@[10.1.2.3]"}).Draw(t, label+"-maillike")}
+		case "url":
+			return core.GN{Type: k, Name: rapid.SampledFrom([]string{"10.0.0.1", "example.org", "i@example.org", "urn:oid:1.2.3", "HTTP://EXAMPLE.ORG/%7e", "ldap://[::1]/o=x"}).Draw(t, label+"-urllike")}
+		}
+	}
 	switch k {
 	case "ip":
 		return core.GN{Type: k, Name: genIP(t, label+"-ip")}
